@@ -98,9 +98,11 @@ def c12_driver(ctx):
 
     def bump(k, n=1):
         st[k] = st.get(k, 0) + n
-    configs = [("build", 1, False), ("build", 1, True), ("build", 3, True), ("build", 4, False), ("compact", 1, True), ("compactdirty", 1, True)]
+    # destination before the build: absent, holding earlier content, or reserved as an EMPTY file (File::create / touch / a
+    # named temp file) - in all three a failed or killed build leaves it exactly as it was
+    configs = [("build", 1, False), ("build", 1, True), ("build", 3, True), ("build", 4, False), ("build", 1, "empty"), ("build", 3, "empty"), ("compact", 1, True), ("compactdirty", 1, True)]
     if tier == "thorough":
-        configs = [("build", v, pre) for v in (1, 2, 3, 4) for pre in (False, True)] + [("compact", v, True) for v in (1, 2, 3)] + [("compactdirty", v, True) for v in (1, 2)]
+        configs = [("build", v, pre) for v in (1, 2, 3, 4) for pre in (False, True, "empty")] + [("compact", v, True) for v in (1, 2, 3)] + [("compactdirty", v, True) for v in (1, 2)]
     for ci, (kind, ver, pre) in enumerate(configs):
         sb = os.path.join(base, "c%d" % ci)
         dest = os.path.join(sb, "dest.mpq")
@@ -115,6 +117,9 @@ def c12_driver(ctx):
             if kind == "compactdirty":
                 subprocess.run([wvh, "fsop", "build", str(ver), dest, str(seed)], stdout=subprocess.DEVNULL)
                 return open(dest, "rb").read()
+            if pre == "empty":
+                open(dest, "wb").close()
+                return b""
             if pre:
                 open(dest, "wb").write(OLD)
                 return OLD
@@ -983,6 +988,28 @@ def c02_driver(ctx):
         res["model_cases"] += 1
         if outs[0] != rust_hdr:
             res["disagreements"].append((i, "header of builder archive (%s)" % cfg, rust_hdr, outs[0]))
+        # the reference reader is strict about what the header and the block table announce (a lenient reader hides what a
+        # reader written from the published layout trips over): the optional V2 table of high position words is absent (0)
+        # or lies inside the archive, and every live block's stored extent lies inside the archive
+        import struct as _st
+        if len(arch) >= 44 and arch[:4] == b"MPQ\x1a" and _st.unpack_from("<H", arch, 12)[0] >= 1:
+            hib = _st.unpack_from("<Q", arch, 32)[0]
+            nblk = _st.unpack_from("<I", arch, 28)[0]
+            res["evals"] += 1
+            bump("c02.v2_header.hi_block_pos_%s" % ("zero" if hib == 0 else "set"))
+            if hib != 0 and hib + 2 * nblk > len(arch):
+                res["oracle_fail"].append(("reference-cannot-open-builder-archive", "%s: header announces a table of high position words at %#x (%d entries), beyond the archive (%#x bytes)" % (cfg, hib, nblk, len(arch))))
+        blk = _model(wvmodel, ["mpqblocks " + ar])[0]
+        res["model_cases"] += 1
+        if not blk.startswith("err"):
+            for bi, row in enumerate(blk.split(";")):
+                try:
+                    pos, csz, fsz, flg = [int(x) for x in row.split(",")]
+                except ValueError:
+                    continue
+                res["evals"] += 1
+                if flg & 0x80000000 and pos + csz > len(arch):
+                    res["oracle_fail"].append(("block-entry-extent-outside-archive", "%s: block %d announces %#x stored bytes at %#x (flags %#x, %d bytes of content), archive is %#x bytes" % (cfg, bi, csz, pos, flg, fsz, len(arch))))
         for fi, (f, o) in enumerate(zip(files, outs[1:])):
             name = bytes.fromhex(f[0]).decode("utf-8", "replace")
             method, enc, want = int(f[1]), int(f[2]), _rle_dec(f[3])
